@@ -414,6 +414,11 @@ static void child_loop(int from_parent, int to_parent, const std::string &dir, i
             case 0: { if (f) { f.close(); } cur = dir + "/p" + std::to_string(index) + "_" + std::to_string(arg % 2) + ".nix"; f = File::open(cur, FileMode::Overwrite); out << "ok"; list_ids(f, cur, out); break; }
             case 1: { if (f) { f.close(); } cur = dir + "/shared.nix"; f = File::open(cur, FileMode::ReadWrite); out << "ok"; list_ids(f, cur, out); break; }
             case 2: { if (f) { f.close(); f = nix::none; } out << "ok"; break; }
+            case 9: { // a new session of this process on the file it used last: ReadWrite or ReadOnly, with or without the Force flag
+                if (cur.empty()) { out << "skip"; break; }
+                if (f) { f.close(); f = nix::none; }
+                f = File::open(cur, (sub & 1) ? FileMode::ReadOnly : FileMode::ReadWrite, "hdf5", Compression::Auto, (sub & 2) ? OpenFlags::Force : OpenFlags::None);
+                out << "ok"; list_ids(f, cur, out); break; }
             case 3: {
                 if (!f) { out << "skip"; break; }
                 Rng r(sub);
@@ -559,7 +564,7 @@ int run_special(World &w, const Plan &p, const std::string &dir) {
         std::string who = "process " + std::to_string(k);
         w.arg_class = action == 5 ? "forceId" : "";
         if (s.lane == "ids" && (action == 6 || action == 7 || action == 8)) action = 3;
-        if (action == 9) action = 3;
+        if (action == 9 && c.shared) action = 3;      // the shared file is handed over explicitly (action 1)
         if (action == 1) { if (shared_holder >= 0 && shared_holder != k) action = 3; else { shared_holder = k; c.shared = true; } }
         if ((action == 0 || action == 2) && c.shared) { c.shared = false; if (shared_holder == k) shared_holder = -1; }
         sched.u64((uint64_t) k); sched.u64((uint64_t) clk[(size_t) k]); sched.u64((uint64_t) action);
